@@ -24,22 +24,23 @@ Notation GZ := (GZ fb).
 (** * The one-hot image of a sequence *)
 Definition img (q : tseq) : asg := fun v =>
   existsb (fun t => existsb (fun f => existsb (fun l =>
-     isact fb f && (zn (gvar fb t f l) =? v)%Z && is_level l (get_cell q f t))
+     isact fb f && lappl fb f t && (zn (gvar fb t f l) =? v)%Z && is_level l (get_cell q f t))
      (seq 0 (nlevels fb f))) (seq 0 (nf fb))) (seq 0 (T fb)).
 
 Lemma img_bit q t f l :
-  t < T fb -> isact fb f = true -> l < nlevels fb f -> bit fb (img q) t f l = is_level l (get_cell q f t).
+  t < T fb -> isact fb f = true -> lappl fb f t = true -> l < nlevels fb f ->
+  bit fb (img q) t f l = is_level l (get_cell q f t).
 Proof.
-  intros Ht Hf Hl. unfold bit, img. destruct (is_level l (get_cell q f t)) eqn:E.
+  intros Ht Hf Hap Hl. unfold bit, img. destruct (is_level l (get_cell q f t)) eqn:E.
   - apply existsb_exists. exists t. split; [apply in_seq; lia|].
     apply existsb_exists. exists f. split; [apply in_seq; pose proof (f1_act_lt fb HF1 f Hf); lia|].
-    apply existsb_exists. exists l. split; [apply in_seq; lia|]. now rewrite Hf, Z.eqb_refl, E.
+    apply existsb_exists. exists l. split; [apply in_seq; lia|]. now rewrite Hf, Hap, Z.eqb_refl, E.
   - apply not_true_is_false. intros H.
-    apply existsb_exists in H. destruct H as (t' & _ & H).
+    apply existsb_exists in H. destruct H as (t' & Ht' & H). apply in_seq in Ht'.
     apply existsb_exists in H. destruct H as (f' & Hf' & H). apply in_seq in Hf'.
     apply existsb_exists in H. destruct H as (l' & Hl' & H). apply in_seq in Hl'.
-    rewrite !andb_true_iff in H. destruct H as [[H0 H1] H2]. apply Z.eqb_eq in H1. unfold zn in H1. apply Nat2Z.inj in H1.
-    destruct (gvar_inj fb HF1 t' f' l' t f l H0 ltac:(lia) Hf Hl H1) as (-> & -> & ->). congruence.
+    rewrite !andb_true_iff in H. destruct H as [[[H0 H0'] H1] H2]. apply Z.eqb_eq in H1. unfold zn in H1. apply Nat2Z.inj in H1.
+    destruct (gvar_inj fb HF1 t' f' l' t f l ltac:(lia) H0 ltac:(lia) H0' Ht Hf Hl Hap H1) as (-> & -> & ->). congruence.
 Qed.
 
 (** the shape of a valid sequence: complete, every cell a level of its factor *)
@@ -47,7 +48,8 @@ Lemma valid_shape q :
   valid_b (code_sem fb) q = true ->
   length q = nf fb /\
   (forall f, f < nf fb -> length (nth f q []) = T fb) /\
-  (forall t f, t < T fb -> isact fb f = true -> exists l, l < nlevels fb f /\ get_cell q f t = Some l).
+  (forall t f, t < T fb -> isact fb f = true -> lappl fb f t = true -> exists l, l < nlevels fb f /\ get_cell q f t = Some l) /\
+  (forall t f, t < T fb -> isact fb f = true -> lappl fb f t = false -> get_cell q f t = None).
 Proof.
   intros Hv. unfold valid_b in Hv. rewrite !andb_true_iff in Hv. destruct Hv as [[[Hlen Hfac] _] _].
   apply Nat.eqb_eq in Hlen. rewrite (sem_factors_length fb HF1 HT) in Hlen.
@@ -58,19 +60,31 @@ Proof.
   { intros f Hf. destruct (nth_error (fl_design fb) f) as [fd|] eqn:E.
     - exists fd. split; [reflexivity|]. now apply Hfac.
     - apply nth_error_None in E. unfold nf in Hf. lia. }
-  split; [exact Hlen|]. split.
+  assert (Kc : forall t f, t < T fb -> isact fb f = true ->
+            match get_cell q f t with
+            | Some l => lappl fb f t = true /\ l < nlevels fb f
+            | None => lappl fb f t = false
+            end).
+  { intros t f Ht Ha. pose proof (f1_act_lt fb HF1 f Ha) as Hf. destruct (K f Hf) as (fd & Efd & Hok).
+    unfold factor_ok in Hok. apply andb_true_iff in Hok.
+    destruct Hok as [_ Hc]. rewrite forallb_forall in Hc. specialize (Hc t ltac:(apply in_seq; cbn [code_sem s_trials]; unfold T in Ht; lia)).
+    rewrite <- (applies_lappl fb HF1 f fd t Efd).
+    destruct (get_cell q f t) as [l|] eqn:Ec.
+    - rewrite !andb_true_iff in Hc. destruct Hc as [[[Hap Hl] _] _]. split; [exact Hap|].
+      apply Nat.ltb_lt in Hl. cbn [code_factor f_nlevels] in Hl. now rewrite (nlevels_design fb f fd Efd).
+    - now apply negb_true_iff in Hc. }
+  split; [exact Hlen|]. split; [|split].
   - intros f Hf. destruct (K f Hf) as (fd & _ & Hok). unfold factor_ok in Hok. apply andb_true_iff in Hok.
     destruct Hok as [Hl _]. now apply Nat.eqb_eq in Hl.
-  - intros t f Ht Ha. pose proof (f1_act_lt fb HF1 f Ha) as Hf. destruct (K f Hf) as (fd & Efd & Hok). unfold factor_ok in Hok. apply andb_true_iff in Hok.
-    destruct Hok as [_ Hc]. rewrite forallb_forall in Hc. specialize (Hc t ltac:(apply in_seq; cbn [code_sem s_trials]; unfold T in Ht; lia)).
-    destruct (get_cell q f t) as [l|] eqn:Ec.
-    + exists l. split; [|reflexivity]. rewrite !andb_true_iff in Hc. destruct Hc as [[[_ Hl] _] _].
-      apply Nat.ltb_lt in Hl. cbn [code_factor f_nlevels] in Hl. now rewrite (nlevels_design fb f fd Efd).
-    + rewrite (applies_f1 fb HF1 f fd t Efd Ha) in Hc. discriminate.
+  - intros t f Ht Ha Hap. specialize (Kc t f Ht Ha). destruct (get_cell q f t) as [l|].
+    + exists l. split; [apply Kc|reflexivity].
+    + congruence.
+  - intros t f Ht Ha Hap. specialize (Kc t f Ht Ha). destruct (get_cell q f t) as [l|]; [|reflexivity].
+    destruct Kc as [Kc _]. congruence.
 Qed.
 
 Lemma valid_is_shape q : valid_b (code_sem fb) q = true -> shape fb q.
-Proof. intros Hv. destruct (valid_shape q Hv) as (A & B & C). repeat split; assumption. Qed.
+Proof. intros Hv. destruct (valid_shape q Hv) as (A & B & C & D). repeat split; assumption. Qed.
 
 Lemma valid_factor_ok q f fd :
   valid_b (code_sem fb) q = true -> nth_error (fl_design fb) f = Some fd ->
@@ -86,9 +100,10 @@ Qed.
 Lemma img_cell_act q t d :
   shape fb q -> t < T fb -> isact fb d = true -> cell_act fb (img q) t d = get_cell q d t.
 Proof.
-  intros (_ & _ & C) Ht Hd. destruct (C t d Ht Hd) as (x & Hx & Ex). rewrite Ex.
-  unfold cell_act. apply find_unique; [exact Hx|]. intros j Hj.
-  rewrite (img_bit q t d j Ht Hd Hj), Ex, is_level_some. apply Nat.eqb_sym.
+  intros (_ & _ & C & D) Ht Hd. unfold cell_act. destruct (lappl fb d t) eqn:Hap; [|symmetry; now apply D].
+  destruct (C t d Ht Hd Hap) as (x & Hx & Ex). rewrite Ex.
+  apply find_unique; [exact Hx|]. intros j Hj.
+  rewrite (img_bit q t d j Ht Hd Hap Hj), Ex, is_level_some. apply Nat.eqb_sym.
 Qed.
 
 (** the implied cells of a valid sequence are those computed from the image *)
@@ -98,7 +113,7 @@ Lemma img_cell_impl q t f :
 Proof.
   intros Hv Ht Hf Hn. pose proof (valid_is_shape q Hv) as Hs.
   destruct (implied_facts fb HF1 HT f Hf Hn) as (fd & w & Efd & Ew & Hd & W1 & W2 & W3 & Htot).
-  pose proof Hs as (_ & R & C).
+  pose proof Hs as (_ & R & C & _).
   pose proof (proj1 (factor_ok_impl fb HF1 HT q f fd w Efd Ew (R f Hf)) (valid_factor_ok q f fd Hv Efd) t Ht) as Hok.
   unfold cell_impl, factor_at. rewrite Efd, Ew.
   destruct (get_cell q f t) as [l0|] eqn:El0.
@@ -106,19 +121,22 @@ Proof.
     assert (Ew' : window_args q (code_factor fb f fd) (dwin fd w) t
                   = window_args (dec_act fb (img q)) (code_factor fb f fd) (dwin fd w) t).
     { apply (impl_window_ext fb HF1 HT _ _ f fd w t W3 Hap Ew). intros d t' Hdd Ht'.
-      pose proof (proj1 (Forall_forall _ _) Hd d Hdd) as Hda. cbv beta in Hda.
+      pose proof (proj1 (Forall_forall _ _) Hd d Hdd) as Hds. cbv beta in Hds.
+      destruct (sact_lappl fb HF1 d t' Hds) as [Hda _].
       rewrite (dec_act_cell fb _ t' d ltac:(lia) (f1_act_lt fb HF1 d Hda)).
       symmetry. apply (img_cell_act q t' d Hs ltac:(lia) Hda). }
     rewrite <- Ew'. symmetry. apply (find_only fb HF1 HT); [|exact Hl0|exact Hacc].
     apply Htot. apply (impl_window_in fb HF1 HT q f fd w t W3 Hap Ew). intros d t' Hdd Ht'.
-    pose proof (proj1 (Forall_forall _ _) Hd d Hdd) as Hda. cbv beta in Hda. exact (C t' d ltac:(lia) Hda).
+    pose proof (proj1 (Forall_forall _ _) Hd d Hdd) as Hds. cbv beta in Hds.
+    destruct (sact_lappl fb HF1 d t' Hds) as [Hda Hdl]. exact (C t' d ltac:(lia) Hda Hdl).
   - now rewrite Hok.
 Qed.
 
 Lemma valid_onehot_img q : valid_b (code_sem fb) q = true -> onehot fb (img q) q.
 Proof.
-  intros Hv. destruct (valid_shape q Hv) as (A & B & C). split; [exact A|]. split; [exact B|]. split; [exact C|]. split.
-  - intros t f l Ht Hf Hl. now apply img_bit.
+  intros Hv. destruct (valid_shape q Hv) as (A & B & C & D). split; [exact A|]. split; [exact B|]. split; [exact C|].
+  split; [|split; [|exact D]].
+  - intros t f l Ht Hf Hap Hl. now apply img_bit.
   - intros t f Ht Hf Hn. now apply img_cell_impl.
 Qed.
 
@@ -126,8 +144,8 @@ Qed.
 Lemma onehot_agree s1 s2 q : onehot fb s1 q -> onehot fb s2 q -> agree_upto GZ s1 s2.
 Proof.
   intros (_ & _ & _ & H1 & _) (_ & _ & _ & H2 & _) v Hv.
-  destruct (gvar_surj fb HF1 (Z.to_nat v)) as (t & f & l & Ht & Hf & Hl & E).
-  { unfold F1Kinds.GZ, GN, zn in Hv. lia. }
+  destruct (gvar_surj fb HF1 (Z.to_nat v)) as (t & f & l & Ht & Hf & Hl & Hap & E).
+  { unfold F1Kinds.GZ, zn in Hv. lia. }
   replace v with (zn (gvar fb t f l)) by (unfold zn; lia).
   change (bit fb s1 t f l = bit fb s2 t f l). now rewrite H1, H2.
 Qed.
@@ -303,4 +321,39 @@ Example ex_implied_transition_facts :
 Proof.
   split; [vm_compute; reflexivity|]. split; [vm_compute; lia|]. split; [vm_compute; reflexivity|].
   split; [vm_compute; eexists; split; reflexivity|]. split; vm_compute; reflexivity.
+Qed.
+
+(** a factor of act_design with a complex window: a colour-repetition Transition
+    crossed with the colour; the crossing starts after a preamble of one trial,
+    the Transition has 4 x 2 variables after the 5 x 2 grid variables, an
+    AtMostKInARow constrains its first level *)
+Definition xtwin0 : fwindow :=
+  {| win_deps := [0]; win_width := 2; win_stride := 1; win_start := 1; win_start_delta := 0%Z |}.
+Definition xtrans0 : ffactor :=
+  {| ff_name := String.EmptyString; ff_hidden := false;
+     ff_levels := [xlvl [[[Some 0; Some 0]]; [[Some 1; Some 1]]]; xlvl [[[Some 0; Some 1]]; [[Some 1; Some 0]]]];
+     ff_window := Some xtwin0; ff_complex := true |}.
+Definition ex_transition : flat :=
+  {| fl_design := [xsimple; xtrans0]; fl_act := [0; 1];
+     fl_crossings := [[0; 1]]; fl_sustains := [1]; fl_weights := [1]; fl_sizes := [4];
+     fl_preambles := [1]; fl_alignment := EqualPreamble; fl_alignment_preamble := 1;
+     fl_min_trials := 0; fl_trials := 5; fl_rcc := true; fl_exclude := [];
+     fl_excluded_derived := [];
+     fl_constraints := [FCross; FConsistency; FAtMost 2 1 0 None;
+                        FDerivation 10 [[DIdx 0; DIdx 2]; [DIdx 1; DIdx 3]] 1;
+                        FDerivation 11 [[DIdx 0; DIdx 3]; [DIdx 1; DIdx 2]] 1];
+     fl_errors_fail := false |}.
+
+Example ex_transition_facts :
+  in_f1 ex_transition = true /\ 0 < T ex_transition /\
+  isact ex_transition 1 = true /\ is_complex ex_transition 1 = true /\
+  VN ex_transition = 18 /\ gvar ex_transition 1 1 0 = 11 /\ gvar ex_transition 4 1 1 = 18 /\
+  (exists b, compile ex_transition = COk b /\ b_fresh b = 102%Z) /\
+  length (all_valid (code_sem ex_transition)) = 4 /\
+  hd [] (all_valid (code_sem ex_transition)) =
+    [[Some 0; Some 1; Some 1; Some 0; Some 0]; [None; Some 1; Some 0; Some 1; Some 0]].
+Proof.
+  split; [vm_compute; reflexivity|]. split; [vm_compute; lia|]. split; [vm_compute; reflexivity|].
+  split; [vm_compute; reflexivity|]. split; [vm_compute; reflexivity|]. split; [vm_compute; reflexivity|].
+  split; [vm_compute; reflexivity|]. split; [vm_compute; eexists; split; reflexivity|]. split; vm_compute; reflexivity.
 Qed.
